@@ -276,6 +276,7 @@ fn run(plan: &Plan, ctx: &mut Ctx) -> R {
     let size_cap = plan.get_or("size_cap", if compress { 4000 } else { 300 }) as u64;
     let mut tsz: BTreeMap<usize, u64> = BTreeMap::new();
     let mut big: Vec<bool> = Vec::new();
+    let mut tsz_of: Vec<u64> = Vec::new();
     let mut nonconst = false;
 
     let resolve = |arg: i64, caller: usize, own: &Vec<Vec<usize>>, n: usize| -> usize {
@@ -305,7 +306,8 @@ fn run(plan: &Plan, ctx: &mut Ctx) -> R {
                 K_ITE => 3,
                 _ => 2,
             };
-            if (0..nops).any(|j| big[resolve(op.a[j], caller, &own, n)]) {
+            let product: u64 = (0..nops).map(|j| tsz_of[resolve(op.a[j], caller, &own, n)]).fold(1u64, |a, b| a.saturating_mul(b.max(1)));
+            if (0..nops).any(|j| big[resolve(op.a[j], caller, &own, n)]) || (!compress && product > 40_000) {
                 kind = K_VAR;
                 r.kind = K_VAR;
                 ctx.count("operand-too-big-degraded-to-var", 1);
@@ -385,7 +387,9 @@ fn run(plan: &Plan, ctx: &mut Ctx) -> R {
         pool.push(p);
         ms.push(want);
         own[caller].push(hidx);
-        big.push(tree_size(p, &mut tsz) > size_cap);
+        let ts = tree_size(p, &mut tsz);
+        big.push(ts > size_cap);
+        tsz_of.push(ts);
         if !p.is_const() && !p.is_var() {
             nonconst = true;
         }
@@ -416,7 +420,10 @@ fn run(plan: &Plan, ctx: &mut Ctx) -> R {
             let q = apply(t, &r, &twin_pool);
             rsdd::verif::set_faults_enabled(was);
             twin_pool.push(q);
-            let (sb, sa) = (sig(p, &mut sig_b), sig(q, &mut sig_a));
+            // structure is only canonical (hence comparable) with compression; otherwise compare the function on the samples
+            let (sb, sa) = if compress { (sig(p, &mut sig_b), sig(q, &mut sig_a)) } else { (0, 0) };
+            let tq = walk(q, &cube, &mut BTreeMap::new());
+            ctx.check("C16", "sdd-twin-same-function", got == tq, || format!("`{}`: with caches forgetting the result reads {}, the fault-free twin's result reads {}", KNAMES[kind as usize], mshow(&got), mshow(&tq)))?;
             ctx.check("C16", "sdd-twin-same-diagram", sb == sa, || format!("`{}`: builder under test returned structure {sb:#x}, the fault-free twin returned {sa:#x}", KNAMES[kind as usize]))?;
         }
     }
